@@ -521,11 +521,24 @@ class ExprMixin:
                     return VInt(ca ** cb)
                 self.limit('symbolic power', node)
             if isinstance(op, ast.BitAnd) or isinstance(op, ast.BitOr) or isinstance(op, ast.LShift) or isinstance(op, ast.RShift):
-                ca, cb = a.concrete(), b.concrete()
+                ca = a.concrete() if isinstance(a, VInt) else None
+                cb = b.concrete() if isinstance(b, VInt) else None
                 if ca is not None and cb is not None:
                     import operator
                     f = {ast.BitAnd: operator.and_, ast.BitOr: operator.or_, ast.LShift: operator.lshift, ast.RShift: operator.rshift}[type(op)]
                     return VInt(f(int(ca), int(cb)))
+                if isinstance(op, ast.LShift) and cb is not None and cb >= 0:
+                    return VInt(x * (2 ** cb))
+                if isinstance(op, ast.BitOr):
+                    # uninterpreted, with the facts used for small non-negative operands:
+                    # a | b >= max(a, b) and a | b <= a + b  (a, b >= 0)
+                    f = z3.Function('bitor', z3.IntSort(), z3.IntSort(), z3.IntSort())
+                    r = f(x, y)
+                    self.assume(z3.Implies(z3.And(x >= 0, y >= 0), z3.And(r >= x, r >= y, r <= x + y)))
+                    self.assume(z3.Implies(x == 0, r == y))
+                    self.assume(z3.Implies(y == 0, r == x))
+                    self.used_assumptions.add('A-BUILTIN: a | b uninterpreted with max(a,b) <= a|b <= a+b for non-negative ints')
+                    return VInt(r)
                 self.limit('symbolic bit operation', node)
             if isinstance(op, ast.Div):
                 self.limit('true division', node)
